@@ -55,6 +55,26 @@ def c_ind(i):
                                      copt(i[3], str), copt(i[4], str))
 
 
+ATTRS = {"macPanId": "APanId", "macShortAddress": "AShort", "macExtendedAddress": "AExt",
+         "macPromiscuousMode": "APromisc", "macImplicitBroadcast": "AImplicit"}
+
+
+def c_hop(o):
+    if o[0] == "F":
+        return "HSend %s" % c_req(o[1])
+    if o[0] == "U":
+        return "HUpd (USet %s %d)" % (ATTRS[o[2]], int(o[3]))
+    if o[0] == "START":
+        return "HUpd (UStart %d)" % o[1]
+    if o[0] == "ASSOC_FAIL":
+        return "HUpd (UAssocFail %d)" % o[1]
+    if o[0] == "ASSOC_OK":
+        return "HUpd (UAssocOk %d %d)" % (o[1], o[3])
+    if o[0] == "RESET":
+        return "HUpd UReset"
+    raise ValueError(o)
+
+
 def c_hist(h):
     return clist(["EAck %d" % e[1] if e[0] == "A" else "ETimeout" for e in h])
 
@@ -180,6 +200,25 @@ def ack_oracle(c, res):
         elif s["ret"] is not True:
             fails.append(("send #%d (unacknowledged) did not return True" % i, None, True, s["ret"]))
         seq = (seq + 1) % 256
+    return fails
+
+
+def hist_oracle(c, res):
+    """The property on a history: every data request is judged against the receiver's PIB as the
+    implementation itself reports it right before the frame (not against what it was earlier)."""
+    fails = []
+    if "exc" in res:
+        return [("history of PIB updates and frames raised " + res["exc"], None, "no exception", res["exc"])]
+    sends = [o for o in c["ops"] if o[0] == "F"]
+    if len(res["steps"]) != len(sends):
+        return [("number of completed data requests in the history", None, len(sends), len(res["steps"]))]
+    seq = c.get("seq0", 0)
+    for i, (o, st) in enumerate(zip(sends, res["steps"])):
+        sub = {"A": c["A"], "B": st["pib"], "req": dict(o[1], seq0=seq)}
+        for what, key, exp, obs in addr_oracle(sub, st):
+            fails.append(("history step #%d (receiver PIB now %s): %s" % (
+                i, json.dumps(st["pib"], sort_keys=True), what), key, exp, obs))
+        seq = st["seq_after"]
     return fails
 
 
@@ -346,6 +385,104 @@ def gen_ack(ctx):
     return cases
 
 
+UPD_PATHS = [("mlme_set", a) for a in ATTRS] + [("db", a) for a in ATTRS] + \
+            [("helper", "macShortAddress"), ("helper", "macExtendedAddress")] + \
+            [("start", "macPanId"), ("assoc_fail", "macPanId"), ("assoc_ok", "macPanId"), ("assoc_ok", "macShortAddress"),
+             ("reset", None)]
+
+
+def hist_frame(rng, a, cur, old, want):
+    """A data request aimed at the receiver's CURRENT identity, at a FORMER one, or elsewhere."""
+    src = {"cur": cur, "old": old}.get(want, cur)
+    ext = rng.random() < 0.3
+    dpan = src["pan"] if want in ("cur", "old") else rng.choice([0xFFFF, 0x0A0A, src["pan"]])
+    daddr = (src["ext"] if ext else src["short"]) if want in ("cur", "old") else rng.choice([0xFFFF, 0x0B0B])
+    if want == "cur" and rng.random() < 0.15:
+        daddr, ext = 0xFFFF, False
+    return ["F", {"sam": rng.choice([0, 1, 2]), "dam": 2 if ext else 1, "dpan": dpan, "daddr": daddr,
+                  "suppressed": False, "payload": rand_payload(rng, rng.choice([0, 1, 2, 7]))}]
+
+
+def py_update(cur, op):
+    """Expected PIB after an update (used by the generator only, to aim the next frames)."""
+    n = dict(cur)
+    names = {"macPanId": "pan", "macShortAddress": "short", "macExtendedAddress": "ext",
+             "macPromiscuousMode": "promisc", "macImplicitBroadcast": "implicit"}
+    if op[0] == "U":
+        n[names[op[2]]] = bool(op[3]) if names[op[2]] in ("promisc", "implicit") else op[3]
+    elif op[0] == "START":
+        n["pan"] = op[1]
+    elif op[0] == "ASSOC_FAIL":
+        n["pan"] = 0xFFFF
+    elif op[0] == "ASSOC_OK":
+        n["pan"], n["short"] = op[1], op[3]
+    elif op[0] == "RESET":
+        n = {"pan": 0xFFFF, "short": 0xFFFF, "ext": 0x1122334455667788, "promisc": False, "implicit": False}
+    return n
+
+
+def mk_update(rng, cur, path, attr):
+    newpan = rng.choice([p for p in PANS + [0x2222, 0x3333] if p != cur["pan"]])
+    newshort = rng.choice([x for x in SHORTS[:-1] + [0x0077, 0x1357] if x != cur["short"]])
+    newext = rng.choice([e for e in EXTS + [0x0A0B0C0D0E0F0001] if e != cur["ext"]])
+    if path in ("mlme_set", "db", "helper"):
+        v = {"macPanId": newpan, "macShortAddress": newshort, "macExtendedAddress": newext,
+             "macPromiscuousMode": int(not cur["promisc"]), "macImplicitBroadcast": int(not cur["implicit"])}[attr]
+        return ["U", path, attr, v]
+    if path == "start":
+        return ["START", newpan]
+    if path == "assoc_fail":
+        return ["ASSOC_FAIL", newpan, rng.choice([0x0000, 0x0042])]
+    if path == "assoc_ok":
+        return ["ASSOC_OK", newpan, rng.choice([0x0000, 0x0042]), newshort]
+    return ["RESET"]
+
+
+def gen_hist_cases(ctx):
+    """Histories on ONE receiving MAC: receive, rewrite the PIB through every available path, receive
+    again (to the new identity, to the former one, elsewhere)."""
+    rng, cases = ctx.rng, []
+
+    def start():
+        a, b = mk_nodes(rng)
+        if b["pan"] == 0xFFFF:
+            b["pan"] = 0x1111
+        if b["short"] == 0xFFFF:
+            b["short"] = 0x0002
+        return a, dict(b, promisc=False, implicit=False)
+
+    # systematic: [frame to the peer] ; update through <path> ; [frame to new] [frame to old] [elsewhere]
+    for rep in range(4 if ctx.thorough else 2):
+        for path, attr in UPD_PATHS:
+            for warm in ((True, False) if rep == 0 else (True,)):
+                a, b = start()
+                cur, ops = dict(b), []
+                if warm:
+                    ops.append(hist_frame(rng, a, cur, cur, "cur"))
+                u = mk_update(rng, cur, path, attr)
+                old, cur = cur, py_update(cur, u)
+                ops.append(u)
+                for want in rng.sample(["cur", "old", "other"], 3):
+                    ops.append(hist_frame(rng, a, cur, old, want))
+                cases.append({"A": a, "B": b, "seq0": rng.choice([0, 250, 255]), "ops": ops,
+                              "kind": "path:%s/%s%s" % (path, attr, "" if warm else "/cold")})
+    # random histories
+    for _ in range(900 if ctx.thorough else 110):
+        a, b = start()
+        cur, old, ops = dict(b), dict(b), []
+        for _k in range(rng.randrange(3, 10)):
+            if rng.random() < 0.4:
+                path, attr = rng.choice(UPD_PATHS)
+                u = mk_update(rng, cur, path, attr)
+                old, cur = cur, py_update(cur, u)
+                ops.append(u)
+            else:
+                ops.append(hist_frame(rng, a, cur, old, rng.choice(["cur", "cur", "old", "old", "other"])))
+        if any(o[0] == "F" for o in ops):
+            cases.append({"A": a, "B": b, "seq0": rng.randrange(256), "ops": ops, "kind": "random"})
+    return cases
+
+
 def gen_choose(ctx):
     cases = []
     for fv in (0, 1, 2, 3):
@@ -389,6 +526,23 @@ def shrink_ack(case):
             break
         cur = nxt
     return cur if failing(cur) else case
+
+
+def shrink_hist(case):
+    """Greedy removal of operations while some step of the history still violates the property."""
+    cur = {k: case[k] for k in ("A", "B", "seq0", "ops")}
+    for _round in range(10):
+        ops = cur["ops"]
+        cands = [dict(cur, ops=ops[:i] + ops[i + 1:]) for i in range(len(ops))]
+        cands = [c for c in cands if any(o[0] == "F" for o in c["ops"])]
+        if not cands:
+            break
+        res = C.run_impl("C20.py", {"hist": cands})["hist"]
+        nxt = next((c for c, r in zip(cands, res) if [f for f in hist_oracle(c, r) if f[1] is None]), None)
+        if nxt is None:
+            break
+        cur = nxt
+    return cur
 
 
 def shrink_addr(case):
@@ -454,7 +608,7 @@ def run(ctx):
     ctx.cov["trusted_base"] = [
         "Coq 8.16.1 kernel + vm_compute (no native_compute); theorems closed under the global context (Print Assumptions checked each run)",
         "translator harness/translators/C20_panid.py (unverified text generator, fail-closed; validated each run by evaluating the generated choose_panid / panid_table against the real function and dict on 1.8k inputs inside Coq)",
-        "hand-written model coq/theories/C20/Model.v (data/send_data/on_pdu/match_filter/indicate_data/ack wait) tied to whad/dot15d4/stack/mac/__init__.py by the correspondence of this run",
+        "hand-written model coq/theories/C20/Model.v (data/send_data/on_pdu/match_filter/indicate_data/ack wait; receiver as a state machine over PIB updates and frames, the MAC keeping no state but the PIB between frames) tied to whad/dot15d4/stack/mac/__init__.py by the correspondence of this run",
         "scapy 2.6.1 Dot15d4/Dot15d4Data build and dissection modelled concretely in Gallina (le fields, conditional src_panid, dest_addr raising for modes 0/1 -> Raw) and exercised on every case; upper-layer dissectors (ZigbeeNWK) assumed to give back the payload bytes (checked by the oracle on every indicated frame)",
         "virtual time: `time`/`sleep` of the MAC module replaced from outside; a history event ETimeout is a quiet period of macAckTimeout + 4 ticks; real thread interleavings of the reader thread are not explored",
         "fake PHY = the stack's connector: bytes(packet) on transmit, Dot15d4(bytes) on receive, struct.error during dissection drops the frame (as whad.hub's dissect_failsafe)",
@@ -465,6 +619,7 @@ def run(ctx):
         "'addressed' is the numeric reading of the property: dest PAN in {peer PAN, 0xFFFF} and dest address in {peer short, peer extended, 0xFFFF} whatever the addressing mode (the code's filter is mode-blind)",
         "pan_id_suppressed=True is modelled (scapy default source PAN 0 is emitted) but the indicated source PAN is then not judged by the oracle",
         "acknowledgement histories are finite; after the history nothing arrives; an acknowledgement and a timeout do not race (events are sequential)",
+        "histories: PIB updates and frames on the receiver are sequential (no frame arrives while an MLME primitive is executing, except the scripted coordinator's acknowledgements and association response); the oracle judges each frame against the PIB the implementation reports right before it",
         "frame version: send_data always builds version 0; _choose_pan_id_compression for version 2 raises NameError (table not imported) - unreachable from MCPS-DATA, translated as it is",
     ]
 
@@ -498,18 +653,20 @@ def run(ctx):
 
     # ---- (2)+(3) generation and implementation -------------------------------
     cdir = os.path.join(C.VERIF, "corpus", PID)
-    corpus_addr, corpus_ack = [], []
+    corpus_addr, corpus_ack, corpus_hist = [], [], []
     for fn in sorted(os.listdir(cdir)) if os.path.isdir(cdir) else []:
         w = json.load(open(os.path.join(cdir, fn)))
         w["file"] = fn
-        (corpus_addr if w.get("group") == "addr" else corpus_ack).append(w)
+        {"addr": corpus_addr, "hist": corpus_hist}.get(w.get("group"), corpus_ack).append(w)
     addr_cases = [w["case"] for w in corpus_addr] + gen_addr(ctx)
     ack_cases = [w["case"] for w in corpus_ack] + gen_ack(ctx)
     choose_cases = gen_choose(ctx)
-    r1 = C.run_impl("C20.py", {"addr": addr_cases, "ack": ack_cases, "choose": choose_cases, "table": True})
+    hist_cases = [w["case"] for w in corpus_hist] + gen_hist_cases(ctx)
+    r1 = C.run_impl("C20.py", {"addr": addr_cases, "ack": ack_cases, "choose": choose_cases, "table": True,
+                               "hist": hist_cases})
     raw_cases = gen_raw(ctx, addr_cases, r1["addr"])
     r2 = C.run_impl("C20.py", {"raw": raw_cases})
-    n_all = len(addr_cases) + len(ack_cases) + len(choose_cases) + len(raw_cases)
+    n_all = len(addr_cases) + len(ack_cases) + len(choose_cases) + len(raw_cases) + len(hist_cases)
     ctx.cov["evaluations"] = n_all
     ctx.cov["traces_validated_against_impl"] = n_all
 
@@ -561,6 +718,22 @@ def run(ctx):
                 if f2:
                     cc, res, (what, key, exp, obs) = cc2, res2, f2[0]
             ctx.violation(what, {"group": "ack", "case": cc}, key=key, expected=exp, observed=res)
+    for c, res in zip(hist_cases, r1["hist"]):
+        fl = [f for f in hist_oracle(c, res) if f[1] is None]
+        if not fl:
+            continue
+        what, key, exp, obs = fl[0]
+        hc = {k: c[k] for k in ("A", "B", "seq0", "ops")}
+        cls = report("hist", re.sub(r"\(receiver PIB now .*?\): ", "", what), key, hc, exp, obs)
+        if cls:
+            if counts[cls] == 1:
+                hc2 = shrink_hist(hc)
+                res2 = C.run_impl("C20.py", {"hist": [hc2]})["hist"][0]
+                f2 = [f for f in hist_oracle(hc2, res2) if f[1] is None]
+                if f2:
+                    hc, res, (what, key, exp, obs) = hc2, res2, f2[0]
+            ctx.violation(what, {"group": "hist", "case": hc}, key=key, expected=exp,
+                          observed={"steps": res.get("steps"), "pib": res.get("pib")})
     for c, res in zip(choose_cases, r1["choose"]):
         for what, key, exp, obs in choose_oracle(c, res):
             if report("choose", what, key, c, exp, obs):
@@ -608,22 +781,54 @@ def run(ctx):
         ch_terms.append("(%d, %d, %d, %s, %s, %s, %s, %d)" % (c[0], c[1], c[2], cbool(hd), cbool(hs),
                                                              copt(dp, str), copt(sp, str), obs))
         ch_idx.append(k)
+    hist_terms, hist_idx = [], []
+    for k, (c, res) in enumerate(zip(hist_cases, r1["hist"])):
+        if "exc" in res or any("exc" in st for st in res["steps"]):
+            continue
+        steps = clist(["(%s, %s)" % (clist([cbytes(bytes.fromhex(f)) for f in st["frames"]]),
+                                     clist([c_ind(i) for i in st["ind"]])) for st in res["steps"]])
+        hist_terms.append("(%s, %s, %d, %s, (%s, %s))" % (
+            c_pib(c["A"]), c_pib(c["B"]), c.get("seq0", 0), clist([c_hop(o) for o in c["ops"]]), steps, c_pib(res["pib"])))
+        hist_idx.append(k)
     tab_term = "(%s, %s)" % (clist(["((%d, %d, %s, %s), %d)" % (a, b, cbool(x), cbool(y), v) for a, b, x, y, v in r1["table"]]),
                              cbool(r1["table_name_in_mac_module"]))
     bad_a, logs_a = C.run_cases(PID, "addr", pre, "addr_case", addr_terms, "check_addr", shard=250)
     bad_r, logs_r = C.run_cases(PID, "raw", pre, "raw_case", raw_terms, "check_raw", shard=250)
     bad_k, logs_k = C.run_cases(PID, "ack", pre, "ack_case", ack_terms, "check_ack", shard=120)
+    bad_h, logs_h = C.run_cases(PID, "hist", pre, "hist_case", hist_terms, "check_hist", shard=60)
     bad_c, logs_c = C.run_cases(PID, "choose", pre, "choose_case", ch_terms, "check_choose", shard=400)
     bad_t, logs_t = C.run_cases(PID, "table", pre, "list (panid_key * N) * bool", [tab_term], "check_table")
-    n_skipped = (len(raw_cases) - len(raw_terms)) + (len(ack_cases) - len(ack_terms)) + (len(choose_cases) - len(ch_terms))
-    ctx.log("correspondence: addr %d/%d bad, raw %d/%d, ack %d/%d, choose %d/%d, table %d/1; %d cases not comparable"
+    n_skipped = ((len(raw_cases) - len(raw_terms)) + (len(ack_cases) - len(ack_terms)) + (len(choose_cases) - len(ch_terms))
+                 + (len(hist_cases) - len(hist_terms)))
+    ctx.log("correspondence: addr %d/%d bad, raw %d/%d, ack %d/%d, hist %d/%d, choose %d/%d, table %d/1; %d cases not comparable"
             % (len(bad_a), len(addr_terms), len(bad_r), len(raw_terms), len(bad_k), len(ack_terms),
-               len(bad_c), len(ch_terms), len(bad_t), n_skipped))
-    ctx.notes += logs_a[:2] + logs_r[:1] + logs_k[:1] + logs_c[:1] + logs_t[:1]
+               len(bad_h), len(hist_terms), len(bad_c), len(ch_terms), len(bad_t), n_skipped))
+    ctx.notes += logs_a[:2] + logs_r[:1] + logs_k[:1] + logs_h[:1] + logs_c[:1] + logs_t[:1]
 
     # ---- coverage ------------------------------------------------------------------
     dist = {"addr_cases": len(addr_cases), "raw_cases": len(raw_cases), "ack_cases": len(ack_cases),
-            "choose_cases": len(choose_cases)}
+            "choose_cases": len(choose_cases), "hist_cases": len(hist_cases)}
+    hist_paths, hist_after = {}, {"frame_to_current_identity_indicated": 0, "frame_to_former_identity_dropped": 0,
+                                  "frame_elsewhere": 0, "frames_after_an_update": 0, "frames_before_any_update": 0}
+    for c, res in zip(hist_cases, r1["hist"]):
+        seen_upd, init = False, c["B"]
+        steps = iter(res.get("steps", []))
+        for o in c["ops"]:
+            if o[0] != "F":
+                k = o[0] if o[0] != "U" else "%s:%s" % (o[1], o[2])
+                hist_paths[k] = hist_paths.get(k, 0) + 1
+                seen_upd = True
+                continue
+            st = next(steps, None)
+            if st is None:
+                break
+            hist_after["frames_after_an_update" if seen_upd else "frames_before_any_update"] += 1
+            if seen_upd and st["ind"]:
+                hist_after["frame_to_current_identity_indicated"] += 1
+            elif seen_upd and not st["ind"] and o[1]["dpan"] == init["pan"] and o[1]["daddr"] in (init["short"], init["ext"]):
+                hist_after["frame_to_former_identity_dropped"] += 1
+            elif not st["ind"]:
+                hist_after["frame_elsewhere"] += 1
     by_modes, indicated, compressed, excs, plen = {}, 0, 0, {}, set()
     branches = {"filter_promiscuous": 0, "filter_implicit_broadcast_no_layer": 0, "filter_pan_mismatch": 0,
                 "filter_addr_mismatch": 0, "filter_pass_addressed": 0, "filter_pass_no_layer": 0,
@@ -703,20 +908,32 @@ def run(ctx):
                  "ack_sends": n_sends,
                  "ack_kinds": {k: sum(1 for c in ack_cases if c.get("kind", "corpus") == k)
                                for k in sorted({c.get("kind", "corpus") for c in ack_cases})},
+                 "hist_update_paths": hist_paths, "hist_frames": hist_after,
+                 "hist_kinds": len({c.get("kind", "corpus") for c in hist_cases}),
                  "model_branches": branches,
-                 "uncovered_branches": sorted(k for k, v in branches.items() if not v)})
+                 "uncovered_branches": sorted([k for k, v in branches.items() if not v]
+                                              + ["hist:" + k for k, v in hist_after.items() if not v]
+                                              + ["hist_path:" + k for k in
+                                                 ["START", "ASSOC_FAIL", "ASSOC_OK", "RESET", "helper:macShortAddress",
+                                                  "helper:macExtendedAddress"]
+                                                 + ["%s:%s" % (p_, a_) for p_ in ("mlme_set", "db") for a_ in ATTRS]
+                                                 if not hist_paths.get(k)])})
     ctx.cov["distribution"] = dist
     ctx.cov["uncovered_branches"] = dist["uncovered_branches"]
     ctx.cov["distinct_nontrivial"] = C.distinct_count(
         [["a", c["A"], c["B"], c["req"]] for c, res in zip(addr_cases, r1["addr"]) if c["req"]["dam"] != 0 and "exc" not in res]
         + [["k", c["seq0"], c["ops"]] for c in ack_cases if any(o[0] == "S" and o[1] and o[2] for o in c["ops"])]
-        + [["r", c["B"], c["frames"]] for c in raw_cases])
+        + [["r", c["B"], c["frames"]] for c in raw_cases]
+        + [["h", c["A"], c["B"], c["ops"]] for c in hist_cases if any(o[0] != "F" for o in c["ops"])])
     ctx.cov["rule"] = ("addr: full product source mode x destination mode x destination PAN kind (own/other/0xFFFF/None/sender's) x "
                        "destination address kind (peer short/peer extended/other short/other extended/0xFFFF/None/sender's) x "
                        "promiscuous x implicit-broadcast, random PIBs (sender in the peer's PAN half of the time), payload lengths 0..100, "
                        "all 256 sequence numbers; raw: truncated / bit-flipped / re-moded genuine frames and random data, ack and reserved-type frames; "
                        "ack: random operation sequences (overheard acks, acknowledged/unacknowledged sends with histories of matching, "
-                       "off-by-one and random acks and timeouts), the retry-budget boundary, stale acks (overheard, late, 256 frames old). "
+                       "off-by-one and random acks and timeouts), the retry-budget boundary, stale acks (overheard, late, 256 frames old); "
+                       "hist: one receiving MAC over time - a frame, then its PAN id / short / extended address / promiscuous / implicit-broadcast "
+                       "attribute rewritten through MLME-SET, database.set, set_short_address/set_extended_address, MLME-START, MLME-ASSOCIATE "
+                       "(failed and successful, coordinator scripted on the fake PHY), MLME-RESET, then frames to its new identity, its former one and elsewhere; plus random histories. "
                        "Non-trivial = valid request with a destination address, or scenario with a non-empty history, or raw frame group; distinct by content hash")
     i0 = next(i for i, c in enumerate(addr_cases) if r1["addr"][i].get("ind") and c["req"]["dam"] != 0)
     k0 = next(i for i, c in enumerate(ack_cases) if c.get("kind") == "random" and len(c["ops"]) > 2)
@@ -725,6 +942,7 @@ def run(ctx):
         {"ack": {"seq0": ack_cases[k0]["seq0"], "ops": ack_cases[k0]["ops"]}, "impl": r1["ack"][k0]},
         {"raw": raw_cases[0], "impl": r2["raw"][0]},
         {"choose": choose_cases[7], "impl": r1["choose"][7]},
+        {"hist": {k: hist_cases[0][k] for k in ("A", "B", "seq0", "ops")}, "impl": r1["hist"][0]},
     ]
     ties = [C.source_tie(MAC_REL, 44, 110), C.source_tie(MAC_REL, 867, 937), C.source_tie(MAC_REL, 988, 1051)]
     if tr_info:
@@ -734,6 +952,7 @@ def run(ctx):
                              "table_bound_in_mac_module": tr_info["table_bound"] if tr_info else None}
     ctx.cov["correspondence"] = {"addr": [len(addr_terms), len(bad_a)], "raw": [len(raw_terms), len(bad_r)],
                                  "ack": [len(ack_terms), len(bad_k)], "choose": [len(ch_terms), len(bad_c)],
+                                 "hist": [len(hist_terms), len(bad_h)],
                                  "table": [1, len(bad_t)], "not_comparable": n_skipped}
     ctx.cov["latent_observations"] = [
         "_choose_pan_id_compression raises NameError for frame version 2 (PANID_COMPRESSION_TABLE is not imported into the MAC module); unreachable from MCPS-DATA because send_data always builds frame version 0",
@@ -743,7 +962,7 @@ def run(ctx):
     ]
 
     # ---- (6) verdict -----------------------------------------------------------------
-    corr_bad = bool(bad_a or bad_r or bad_k or bad_c or bad_t)
+    corr_bad = bool(bad_a or bad_r or bad_k or bad_c or bad_t or bad_h)
     if (corr_bad or not proofs_ok or not tr_ok) and not ctx.violations:
         first, what = None, None
         if bad_a:
@@ -755,15 +974,18 @@ def run(ctx):
         elif bad_r:
             i = raw_idx[bad_r[0]]
             first = {"group": "raw", "case": raw_cases[i], "impl": r2["raw"][i]}
+        elif bad_h:
+            i = hist_idx[bad_h[0]]
+            first = {"group": "hist", "case": {k: hist_cases[i][k] for k in ("A", "B", "seq0", "ops")}, "impl": r1["hist"][i]}
         elif bad_c:
             i = ch_idx[bad_c[0]]
             first = {"group": "choose", "case": choose_cases[i], "impl": r1["choose"][i]}
         elif bad_t:
             first = {"group": "table", "impl": r1["table"]}
         if corr_bad:
-            what = ("correspondence C20.Model vs MACManager (addr %d, raw %d, ack %d, choose %d, table %d disagreements)"
-                    % (len(bad_a), len(bad_r), len(bad_k), len(bad_c), len(bad_t)))
-            det = "\n".join(logs_a + logs_r + logs_k + logs_c + logs_t)
+            what = ("correspondence C20.Model vs MACManager (addr %d, raw %d, ack %d, hist %d, choose %d, table %d disagreements)"
+                    % (len(bad_a), len(bad_r), len(bad_k), len(bad_h), len(bad_c), len(bad_t)))
+            det = "\n".join(logs_a + logs_r + logs_k + logs_h + logs_c + logs_t)
         elif not tr_ok:
             what, det = "translator item PAN-id compression: " + tr_detail.splitlines()[0][:200], tr_detail
         else:
@@ -782,7 +1004,8 @@ def replay(payload):
         return 0
     r = C.run_impl("C20.py", {g: [case["case"]]})[g][0]
     print("implementation now gives:", json.dumps(r))
-    fails = {"addr": addr_oracle, "ack": ack_oracle, "choose": choose_oracle}.get(g, lambda c, r: [])(case["case"], r)
+    fails = {"addr": addr_oracle, "ack": ack_oracle, "choose": choose_oracle,
+             "hist": hist_oracle}.get(g, lambda c, r: [])(case["case"], r)
     for what, key, exp, obs in fails:
         print("property still violated: %s (expected %r, observed %r)%s" % (what, exp, obs, " [known finding %s]" % key if key else ""))
     if not fails:
